@@ -29,20 +29,25 @@ I32(b, p) == I32FromBytes(b[p], b[p+1], b[p+2], b[p+3])
 NoGo(p) == [ok |-> FALSE, v |-> <<>>, p |-> p]
 
 \* UTF-8 validity as Rust's String::from_utf8 defines it (no overlongs, no surrogates, <= U+10FFFF)
-RECURSIVE ValidUtf8From(_,_)
-ValidUtf8From(s, i) ==
-  IF i > Len(s) THEN TRUE ELSE
+\* (walked in blocks of 256 positions: one deep recursion costs TLC quadratic time)
+\* ValidRun(s, i, stop): validates characters starting at i until a character starts beyond `stop`;
+\* returns the position of that character, or 0 if an invalid sequence was met
+RECURSIVE ValidRun(_,_,_)
+ValidRun(s, i, stop) ==
+  IF i > Len(s) \/ i > stop THEN i ELSE
   LET c == s[i]
       cont(j) == j <= Len(s) /\ s[j] >= 128 /\ s[j] <= 191 IN
-  IF c < 128 THEN ValidUtf8From(s, i + 1)
-  ELSE IF c >= 194 /\ c <= 223 THEN cont(i+1) /\ ValidUtf8From(s, i + 2)
-  ELSE IF c = 224 THEN cont(i+1) /\ s[i+1] >= 160 /\ cont(i+2) /\ ValidUtf8From(s, i + 3)
-  ELSE IF (c >= 225 /\ c <= 236) \/ c = 238 \/ c = 239 THEN cont(i+1) /\ cont(i+2) /\ ValidUtf8From(s, i + 3)
-  ELSE IF c = 237 THEN cont(i+1) /\ s[i+1] <= 159 /\ cont(i+2) /\ ValidUtf8From(s, i + 3)
-  ELSE IF c = 240 THEN cont(i+1) /\ s[i+1] >= 144 /\ cont(i+2) /\ cont(i+3) /\ ValidUtf8From(s, i + 4)
-  ELSE IF c >= 241 /\ c <= 243 THEN cont(i+1) /\ cont(i+2) /\ cont(i+3) /\ ValidUtf8From(s, i + 4)
-  ELSE IF c = 244 THEN cont(i+1) /\ s[i+1] <= 143 /\ cont(i+2) /\ cont(i+3) /\ ValidUtf8From(s, i + 4)
-  ELSE FALSE
+  IF c < 128 THEN ValidRun(s, i + 1, stop)
+  ELSE IF c >= 194 /\ c <= 223 THEN (IF cont(i+1) THEN ValidRun(s, i + 2, stop) ELSE 0)
+  ELSE IF c = 224 THEN (IF cont(i+1) /\ s[i+1] >= 160 /\ cont(i+2) THEN ValidRun(s, i + 3, stop) ELSE 0)
+  ELSE IF (c >= 225 /\ c <= 236) \/ c = 238 \/ c = 239 THEN (IF cont(i+1) /\ cont(i+2) THEN ValidRun(s, i + 3, stop) ELSE 0)
+  ELSE IF c = 237 THEN (IF cont(i+1) /\ s[i+1] <= 159 /\ cont(i+2) THEN ValidRun(s, i + 3, stop) ELSE 0)
+  ELSE IF c = 240 THEN (IF cont(i+1) /\ s[i+1] >= 144 /\ cont(i+2) /\ cont(i+3) THEN ValidRun(s, i + 4, stop) ELSE 0)
+  ELSE IF c >= 241 /\ c <= 243 THEN (IF cont(i+1) /\ cont(i+2) /\ cont(i+3) THEN ValidRun(s, i + 4, stop) ELSE 0)
+  ELSE IF c = 244 THEN (IF cont(i+1) /\ s[i+1] <= 143 /\ cont(i+2) /\ cont(i+3) THEN ValidRun(s, i + 4, stop) ELSE 0)
+  ELSE 0
+RECURSIVE ValidUtf8From(_,_)
+ValidUtf8From(s, i) == IF i > Len(s) THEN TRUE ELSE LET j == ValidRun(s, i, i + 255) IN IF j = 0 THEN FALSE ELSE ValidUtf8From(s, j)
 ValidUtf8(s) == ValidUtf8From(s, 1)
 
 DecodeInstr(b, p) ==
@@ -105,8 +110,10 @@ Decode(b) ==
 \* writer
 U16Bytes(n) == << n % 256, n \div 256 >>
 U32Bytes(n) == << n % 256, (n \div 256) % 256, (n \div 65536) % 256, n \div 16777216 >>
-RECURSIVE Flatten(_)
-Flatten(ss) == IF ss = <<>> THEN <<>> ELSE Head(ss) \o Flatten(Tail(ss))
+\* concatenation of a sequence of sequences, by halving (logarithmic recursion depth)
+RECURSIVE FlattenR(_,_,_)
+FlattenR(ss, lo, hi) == IF lo > hi THEN <<>> ELSE IF lo = hi THEN ss[lo] ELSE LET mid == (lo + hi) \div 2 IN FlattenR(ss, lo, mid) \o FlattenR(ss, mid + 1, hi)
+Flatten(ss) == FlattenR(ss, 1, Len(ss))
 EncodeInstr(ins) ==
   CASE OpShape[ins.op] = 0 -> <<ins.op>>
     [] OpShape[ins.op] = 2 -> <<ins.op>> \o U16Bytes(ins.a)
